@@ -532,14 +532,16 @@ class Emitter:
         if name in self.gnames: return self.gnames[name]
         base = name[1:]
         if base in self.replace:
-            base = self.replace[base]
+            c = self.gname('@' + self.replace[base])
+            self.gnames[name] = c
+            return c
         base = CLASHING_EXTERNALS.get(base, base)
         c = sanitize(base)
         if re.fullmatch(r'[A-Za-z_][A-Za-z0-9_]*', base) and base not in C_KEYWORDS:
             c = base
         else:
             c = 'g_' + c
-        while c in self.used_cnames and not (name[1:] in self.replace):
+        while c in self.used_cnames:
             c += '_'
         self.used_cnames.add(c)
         self.gnames[name] = c
